@@ -249,7 +249,16 @@ def run_api(case, phi, profs, bins, expected, scale, pdt=np.dtype("float64"), ot
 
         if not dask.is_dask_collection(got.data):
             raise Violation("conservative transform of dask-backed input is not lazy")
-        got = got.compute()
+        # a second variable transformed the same way and evaluated in the same graph (a Dataset of remapped variables): each
+        # result is its own - the transform is linear in the data, so the second one is three times the first
+        got3 = must_return("Grid.transform(method='conservative') of a second variable", grid.transform, (da * 3.0).rename("q3"), "Z", target,
+                           target_data=td, method="conservative")
+        got, got3 = dask.compute(got, got3)
+        g1 = np.asarray(got.transpose(*got3.dims).values, dtype=np.float64)
+        g3 = np.asarray(got3.values, dtype=np.float64)
+        if g1.shape != g3.shape or not np.allclose(g3, 3.0 * g1, rtol=1e-6 if pdt != np.float64 else 1e-12, atol=otol * scale * 3, equal_nan=True):
+            raise Violation("two conservative transforms evaluated in one dask graph are not each their own result "
+                            "(the transform of 3 x data is not 3 x the transform of data)")
     want_dims = enames + [newdim]
     if set(got.dims) != set(want_dims):
         raise Violation("output dimensions of the conservative transform", got=list(got.dims), expected=want_dims)
